@@ -1,4 +1,216 @@
 import OdxVerif.Common.Sexp
-/-! driver stub for the odxlink family (to be written) -/
-open OdxVerif
-def main : IO Unit := driverMain fun _ => "(not-implemented)"
+import OdxVerif.Spec.OdxLink
+/-! line-protocol driver for the reference-resolution model and spec (property C10)
+
+    objects   `(o <uid> (<class> …) <short-name>)`
+    fragments `(<doc-name> <doc-type>)`
+    entries   `(e <local-id> (<frag> …) <obj>)`
+    refs      `(ref <ref-id> (<frag> …))`
+    `-` stands for `None` -/
+open OdxVerif OdxVerif.OdxLink
+
+def pFrag : Sexp → Option Frag
+  | .list [.atom n, .atom t] => some ⟨n, t⟩
+  | _ => none
+
+def pFrags : Sexp → Option (List Frag)
+  | .list xs => xs.mapM pFrag
+  | _ => none
+
+def pAtoms : Sexp → Option (List String)
+  | .list xs => xs.mapM Sexp.asAtom?
+  | _ => none
+
+def pObj : Sexp → Option Obj
+  | .list [.atom "o", u, cls, .atom n] => do
+    let u ← u.asNat?
+    let cls ← pAtoms cls
+    pure ⟨u, cls, n⟩
+  | _ => none
+
+def pEntry : Sexp → Option (Id × Obj)
+  | .list [.atom "e", .atom lid, fr, o] => do
+    let fr ← pFrags fr
+    let o ← pObj o
+    pure (⟨lid, fr⟩, o)
+  | _ => none
+
+def pRef : Sexp → Option Ref
+  | .list [.atom "ref", .atom rid, fr] => do
+    let fr ← pFrags fr
+    pure ⟨rid, fr⟩
+  | _ => none
+
+def pOpt : Sexp → Option (Option String)
+  | .atom "-" => some none
+  | .atom s => some (some s)
+  | _ => none
+
+def pBool : Sexp → Option Bool
+  | .atom "t" => some true
+  | .atom "f" => some false
+  | _ => none
+
+def outStr : Except Err (Option Obj) → String
+  | .ok (some o) => s!"(ok {o.uid})"
+  | .ok none => "(ok none)"
+  | .error .key => "(err key)"
+  | .error .odx => "(err odx)"
+
+def errStr : Err → String
+  | .key => "(err key)"
+  | .odx => "(err odx)"
+
+def dumpDb (db : Db) : String :=
+  let frag (e : Frag × FragDb) :=
+    s!"(frag {e.1.name} {e.1.ty}" ++ String.join (e.2.map fun x => s!" ({x.1} {x.2.uid})") ++ ")"
+  "(db" ++ String.join (db.map fun e => " " ++ frag e) ++ ")"
+
+/-! ### unit level: operation sequences on database objects sharing one heap -/
+
+structure St where
+  heap : Heap := ⟨[]⟩
+  dbs : List DbObj := []
+
+def runOp (st : St) : Sexp → Option (St × String)
+  | .list [.atom "new"] => some ({ st with dbs := st.dbs ++ [[]] }, "ok")
+  | .list [.atom "copy", i] => do
+    let i ← i.asNat?
+    let d ← st.dbs[i]?
+    let r := copyFixed (st.heap, d)
+    pure ({ heap := r.1, dbs := st.dbs ++ [r.2] }, "ok")
+  | .list (.atom "update" :: i :: ow :: es) => do
+    let i ← i.asNat?
+    let ow ← pBool ow
+    let es ← es.mapM pEntry
+    let d ← st.dbs[i]?
+    let r := hUpdate (st.heap, d) es ow
+    pure ({ heap := r.1, dbs := st.dbs.set i r.2 }, "ok")
+  | .list [.atom "resolve", i, r, exp, strict] => do
+    let i ← i.asNat?
+    let r ← pRef r
+    let exp ← pOpt exp
+    let strict ← pBool strict
+    let d ← st.dbs[i]?
+    pure (st, outStr (resolve (view st.heap d) r exp strict))
+  | .list [.atom "lenient", i, r, exp, strict] => do
+    let i ← i.asNat?
+    let r ← pRef r
+    let exp ← pOpt exp
+    let strict ← pBool strict
+    let d ← st.dbs[i]?
+    pure (st, outStr (resolveLenient (view st.heap d) r exp strict))
+  | .list [.atom "dump", i] => do
+    let i ← i.asNat?
+    let d ← st.dbs[i]?
+    pure (st, dumpDb (view st.heap d))
+  | _ => none
+
+def runOps : St → List Sexp → List String → Option (List String)
+  | _, [], acc => some acc.reverse
+  | st, op :: ops, acc =>
+    match runOp st op with
+    | none => none
+    | some (st', out) => runOps st' ops (out :: acc)
+
+/-! ### database level -/
+
+def pLinkRef : Sexp → Option LinkRef
+  | .list [.atom "lr", .atom key, r, exp] => do
+    let r ← pRef r
+    let exp ← pOpt exp
+    pure ⟨key, r, exp⟩
+  | _ => none
+
+def pSnRef : Sexp → Option SnRef
+  | .list [.atom "sr", .atom key, .atom name, pools, .list items, exp] => do
+    let pools ← pAtoms pools
+    let items ← items.mapM pObj
+    let exp ← pOpt exp
+    pure ⟨key, name, pools, items, exp⟩
+  | _ => none
+
+def pPool : Sexp → Option (String × List Obj)
+  | .list (.atom p :: xs) => do
+    let xs ← xs.mapM pObj
+    pure (p, xs)
+  | _ => none
+
+def pLayer : Sexp → Option Layer
+  | .list (.atom "layer" :: fs) => do
+    let obj ← (Sexp.field1? fs "obj").bind pObj
+    let frags ← (Sexp.field1? fs "frags").bind pFrags
+    let esd ← (Sexp.field1? fs "esd").bind pBool
+    let links ← (Sexp.field? fs "links").bind (·.mapM pEntry)
+    let imports ← (Sexp.field? fs "imports").bind (·.mapM pRef)
+    let parent ← (Sexp.field1? fs "parent").bind pOpt
+    let refs ← (Sexp.field? fs "refs").bind (·.mapM pLinkRef)
+    let snrefs ← (Sexp.field? fs "snrefs").bind (·.mapM pSnRef)
+    let locals ← (Sexp.field? fs "locals").bind (·.mapM pPool)
+    pure { obj := obj, frags := frags, isEsd := esd, links := links, importRefs := imports,
+           parentKey := parent, refs := refs, snrefs := snrefs, locals := locals }
+  | _ => none
+
+def resStr (r : Resolved) : String := String.join (r.map fun x => s!" ({x.1} {x.2})")
+
+def pDbArgs (fs : List Sexp) : Option (List (Id × Obj) × List Layer) := do
+  let extra ← (Sexp.field? fs "extra").bind (·.mapM pEntry)
+  let layers ← (Sexp.field? fs "layers").bind (·.mapM pLayer)
+  pure (extra, layers)
+
+def specLayerStr (all : List Layer) (extra : List (Id × Obj)) (l : Layer) : String :=
+  match Spec.expectLayer all extra l with
+  | none => s!"({l.obj.uid} import-fails)"
+  | some xs =>
+    s!"({l.obj.uid}" ++ String.join (xs.map fun x =>
+      match x.2 with
+      | some u => s!" ({x.1} {u})"
+      | none => s!" ({x.1} none)") ++ ")"
+
+def handle (sx : Sexp) : String :=
+  match sx with
+  | .list [.atom "ops", .list ops] =>
+    match runOps {} ops [] with
+    | some outs => "(r " ++ " ".intercalate outs ++ ")"
+    | none => "(bad-args)"
+  | .list [.atom "snref", .atom name, exp, strict, .list items] =>
+    match pOpt exp, pBool strict, items.mapM pObj with
+    | some exp, some strict, some items => outStr (resolveSnref name items exp strict)
+    | _, _, _ => "(bad-args)"
+  | .list [.atom "uniq", .atom name, .list items] =>
+    match items.mapM pObj with
+    | some items => (match Spec.uniqueBy items name with | some o => s!"(ok {o.uid})" | none => "(none)")
+    | none => "(bad-args)"
+  | .list (.atom "refresh" :: fs) =>
+    match pDbArgs fs with
+    | some (extra, layers) =>
+      match refresh extra layers with
+      | .error e => errStr e
+      | .ok r => s!"(ok (links{resStr r.links}) (snrefs{resStr r.snrefs}) (global {dumpDb (view r.heap r.glob)}))"
+    | none => "(bad-args)"
+  | .list (.atom "links" :: fs) =>     -- link phase only (snref errors do not mask the result)
+    match pDbArgs fs with
+    | some (extra, layers) =>
+      let s := buildGlobal extra layers
+      match resolveLayers layers s.2 s.1 layers with
+      | .error e => errStr e
+      | .ok (h, r) => s!"(ok (links{resStr r}) (global {dumpDb (view h s.2)}))"
+    | none => "(bad-args)"
+  | .list (.atom "spec" :: fs) =>
+    match pDbArgs fs with
+    | some (extra, layers) =>
+      "(spec " ++ " ".intercalate (layers.map (specLayerStr layers extra)) ++ ")"
+    | none => "(bad-args)"
+  | .list (.atom "retarget" :: target :: res :: fs) =>
+    match target.asNat?, pDbArgs fs, res with
+    | some t, some (_, layers), .list rs =>
+      match rs.mapM (fun | .list [.atom k, u] => u.asNat?.map (k, ·) | _ => none), findLayer layers t with
+      | some res, some tl =>
+        (match retarget layers res tl with
+         | .error e => errStr e
+         | .ok r => s!"(ok{resStr r})")
+      | _, _ => "(bad-args)"
+    | _, _, _ => "(bad-args)"
+  | _ => "(bad-op)"
+
+def main : IO Unit := driverMain handle
